@@ -29,10 +29,12 @@ struct BasicExecutor *g_scope_exec, *g_focus_scope;   /* executor whose RunnerSc
 unsigned g_scope_open, g_scope_close;
 unsigned g_joins, g_balance_joins; size_t g_nthreads, g_it; _Bool g_cleared, g_balance_joinable, g_pushed_before_balance_join;
 unsigned g_adds, g_subs, g_threads_made, g_detached, g_loads; unsigned long g_thread_fid, g_last_load; _Bool g_counted_before_thread, g_sub_after_run;
+static void vf_havoc_balance(void);
 static void vf_havoc_ghosts(void) {
   g_fid = nondet_u64(); g_popped_fn = g_invoked = g_popped_focus = g_invoked_focus = g_stop_popped = g_task_ctor = g_task_dtor = 0;
   g_push_local = g_push_global = 0; g_scope_exec = 0; g_focus_scope = 0; g_scope_open = g_scope_close = 0; g_running_in = nondet_bool(); g_local_size = nondet_u64();
   g_adds = g_subs = g_threads_made = g_detached = g_loads = 0; g_thread_fid = 0; g_last_load = nondet_u64(); g_counted_before_thread = 0; g_sub_after_run = 0;
+  vf_havoc_balance();
   g_joins = g_balance_joins = 0; g_nthreads = nondet_u64(); g_it = 0; g_cleared = 0; g_balance_joinable = nondet_bool(); g_pushed_before_balance_join = 0;
 }
 /* ---- tasks and function objects */
@@ -211,5 +213,79 @@ __CPROVER_ensures(g_loads >= 1 && g_last_load == 0)
 //@loop AlwaysUseNewThreadExecutor_join 1
 //@  __CPROVER_assigns(g_loads, g_last_load)
 //@  __CPROVER_loop_invariant(1)
+//@end
+
+/* ================= balance thread (keep_balance) =================
+ * inner lambda : a task popped from a worker's local queue is handed to enqueue_task, once (moved, not copied);
+ * range lambda : only queues of the range it is given are polled, and every task popped is enqueued exactly once -- none lost, none
+ *                duplicated (how many tasks it moves per queue and sweep is its own business: workers drain their queues anyway);
+ * keep_balance : sleeps, sweeps all local queues, and returns only after it read the running flag as false (acquire). */
+#include <stdlib.h>
+typedef struct lambda_executor_keep_balance_1 BalR_t;
+typedef struct lambda_executor_keep_balance_2 BalT_t;
+#define LBAL_RANGE Pool_keep_balance_lambda_executor_keep_balance_1_op_call__SchedInterface_RP_SchedInterface_RP_const
+#define LBAL_TASK Pool_keep_balance_lambda_executor_keep_balance_1_op_call__TaskR_const
+Q_t *g_lqs; size_t g_nq, g_qa, g_qb, g_qcur; unsigned long g_bpops, g_bmoves; _Bool g_bal_ok; unsigned g_sweeps, g_sleeps_bal; _Bool g_saw_stop;
+#define LQ_AT(p, k) (__CPROVER_same_object(p, g_lqs) && __CPROVER_POINTER_OFFSET(p) % sizeof(Q_t) == 0 && __CPROVER_POINTER_OFFSET(p) / sizeof(Q_t) == (k))
+Task_t g_bal_task;
+#ifdef VF_BALANCE
+static void vf_havoc_balance(void) {
+  g_nq = nondet_u64(); __CPROVER_assume(g_nq < (1UL << 12)); g_lqs = malloc((g_nq + 1) * sizeof(Q_t)); __CPROVER_assume(g_lqs != 0);
+  g_qa = nondet_u64(); g_qb = nondet_u64(); g_qcur = nondet_u64(); g_bpops = g_bmoves = 0; g_bal_ok = 1; g_sweeps = g_sleeps_bal = 0; g_saw_stop = 0;
+}
+void LBAL_TASK(BalT_t *c, Task_t *t)
+#ifdef VF_ENFORCE_Pool_keep_balance_lambda_executor_keep_balance_1_op_call__TaskR_const
+__CPROVER_requires(__CPROVER_is_fresh(c, sizeof(*c)) && __CPROVER_is_fresh(c->cap_this, sizeof(Pool_t)) && __CPROVER_is_fresh(t, sizeof(*t)) && g_push_local == 0 && g_push_global == 0)
+__CPROVER_assigns(g_push_local, g_push_global, g_pushed_task, g_pushed_q, g_pushed_type, g_pushed_fid, g_pushed_before_balance_join, t->function)
+__CPROVER_ensures(g_push_local + g_push_global == 1 && g_pushed_task == t && g_pushed_type == __CPROVER_old(t->type))
+#else
+__CPROVER_requires(t == &g_bal_task)
+__CPROVER_assigns(g_bmoves, g_bal_task)
+__CPROVER_ensures(g_bmoves == __CPROVER_old(g_bmoves) + 1)
+#endif
+;
+/* try_pop(callback): fails (queue empty) or pops one task and runs the callback on it exactly once */
+_Bool ConcurrentBoundedQueue_L_Pool_Task_SchedInterface_R_try_pop__1_0_lambda_executor_keep_balance_2_void(Q_t *q, BalT_t *cb) {
+  if (!(__CPROVER_same_object(q, g_lqs) && __CPROVER_POINTER_OFFSET(q) % sizeof(Q_t) == 0 && __CPROVER_POINTER_OFFSET(q) / sizeof(Q_t) >= g_qa && __CPROVER_POINTER_OFFSET(q) / sizeof(Q_t) < g_qb)) g_bal_ok = 0;   /* a queue of the range */
+  if (nondet_bool()) return 0;                                                        /* empty */
+  g_bal_task.type = T_FUNCTION; FID(&g_bal_task.function) = nondet_u64();
+  __CPROVER_assume(g_bpops < (1UL << 40)); g_bpops++;
+  LBAL_TASK(cb, &g_bal_task);
+  return 1;
+}
+void LBAL_RANGE(BalR_t *c, Q_t *iter, Q_t *end)
+__CPROVER_requires(__CPROVER_is_fresh(c, sizeof(*c)) && __CPROVER_is_fresh(c->cap_this, sizeof(Pool_t)) && g_qa <= g_qb && g_qb <= g_nq && g_bal_ok)
+__CPROVER_requires(__CPROVER_pointer_equals(iter, g_lqs + g_qa) && __CPROVER_pointer_equals(end, g_lqs + g_qb) && g_bpops == g_bmoves)
+__CPROVER_assigns(g_bpops, g_bmoves, g_bal_ok, g_bal_task)
+__CPROVER_ensures(g_bal_ok && g_bpops == g_bmoves)
+;
+void LocalQs_for_each__lambda_executor_keep_balance_1_void(struct LocalQs *l, BalR_t *cb) {
+  size_t mid = nondet_u64(); __CPROVER_assume(mid <= g_nq);
+  g_qa = 0; g_qb = mid; LBAL_RANGE(cb, g_lqs, g_lqs + mid);
+  g_qa = mid; g_qb = g_nq; LBAL_RANGE(cb, g_lqs + mid, g_lqs + g_nq);
+  __CPROVER_assume(g_sweeps < 1000); g_sweeps++;
+}
+void vf_sleep_for(struct chrono_duration_L_long_ratio_L_1_1000000_R_R *d) { if (g_sleeps_bal < 1000000) g_sleeps_bal++; }
+void Pool_keep_balance(Pool_t *p)
+__CPROVER_requires(P_SHAPE(p) && g_bal_ok && g_bpops == 0 && g_bmoves == 0 && g_sweeps == 0)
+__CPROVER_assigns(p->_running, g_qa, g_qb, g_bpops, g_bmoves, g_bal_ok, g_bal_task, g_sweeps, g_sleeps_bal)
+__CPROVER_ensures(!p->_running && g_bal_ok && g_bpops == g_bmoves)
+;
+#else
+static void vf_havoc_balance(void) { }
+#endif
+//@loop Pool_keep_balance_lambda_executor_keep_balance_1_op_call__SchedInterface_RP_SchedInterface_RP_const 1
+//@  VF_REBASE(@p1:iter@, g_lqs)
+//@  __CPROVER_assigns(@p1:iter@, g_bpops, g_bmoves, g_bal_ok, g_bal_task)
+//@  __CPROVER_loop_invariant(__CPROVER_same_object(@p1:iter@, g_lqs) && __CPROVER_POINTER_OFFSET(@p1:iter@) % sizeof(Q_t) == 0 && __CPROVER_POINTER_OFFSET(@p1:iter@) / sizeof(Q_t) >= g_qa && __CPROVER_POINTER_OFFSET(@p1:iter@) / sizeof(Q_t) <= g_qb && LQ_AT(@p2:end@, g_qb) && g_bal_ok && g_bpops == g_bmoves)
+//@  __CPROVER_decreases(g_qb - __CPROVER_POINTER_OFFSET(@p1:iter@) / sizeof(Q_t))
+//@end
+//@loop Pool_keep_balance_lambda_executor_keep_balance_1_op_call__SchedInterface_RP_SchedInterface_RP_const 2
+//@  __CPROVER_assigns(@l2:success@, g_bpops, g_bmoves, g_bal_ok, g_bal_task)
+//@  __CPROVER_loop_invariant(g_bal_ok && g_bpops == g_bmoves)
+//@end
+//@loop Pool_keep_balance 1
+//@  __CPROVER_assigns(self->_running, g_qa, g_qb, g_bpops, g_bmoves, g_bal_ok, g_bal_task, g_sweeps, g_sleeps_bal)
+//@  __CPROVER_loop_invariant(g_bal_ok && g_bpops == g_bmoves)
 //@end
 #endif
